@@ -23,7 +23,9 @@ RULE = (
     "place-level sequence. (2) signature probes: functions with 1..5 parameters, each borrowed / owned / copyable, 0..2 "
     "results: outputs of the lowered FuncDefn vs results ++ borrowed inputs in order; a caller passing its borrowed "
     "parameters in permuted order: Call output wiring vs _update_inout_ports model. Non-trivial = path depth >= 2 or a "
-    "subscript on the path; >= 2 borrowed parameters for signatures; distinct by canonical request"
+    "subscript on the path; >= 2 borrowed parameters for signatures; distinct by canonical request. (3) assignment probes "
+    "`<place>.f = v` (StmtCompiler._assign_place) for paths ending in a struct field of affine type array[int, 2]: same "
+    "extraction / emission / interpretation against store[pi := v]"
 )
 ASSUMPTIONS = [
     "assumed op semantics (outside the repo): UnpackTuple/MakeTuple are the tuple projections/constructor; borrow(arr,i) hands out "
@@ -35,8 +37,9 @@ ASSUMPTIONS = [
 ]
 UNMODELLED = [
     "runtime values (qubits, gate effects): leaves are opaque numbers, the callee is an arbitrary function",
-    "the refinement from the place-level sequence (theorem writeback_lens) to wires — tuple unpack/pack plumbing of DFContainer, "
-    "itousize — is compared and executed per probe (T-obj), not proved for all paths",
+    "the wire-level theorem (wire_writeback) is about the MODEL's emission emitW, which is tied to the real compiler by per-probe "
+    "comparison (T-obj), and assumes a store that conforms to the root type; the assignment variant emitAssignW is compared and "
+    "executed per probe, not proved at wire level",
     "affine (non-copyable but droppable) values such as array[int, n] fields: DFContainer does not pop them when packing (see notes: "
     "stale struct wire after a move followed by field-wise reassignment)",
     "comptime functions (update_packed_value, D15 is under C21), classical setitem (get/set) write-back, index expressions with side effects (C05), "
@@ -51,13 +54,13 @@ MANIFEST = {
     "place-level borrow/call/return sequence emitted for callee(pi) terminates without panic and turns the store into "
     "store[pi := callee(store[pi])] (writeback_lens, by induction on the number of subscripts with the lens laws put-get/get-put/"
     "put-put/append proved for all paths), every non-overlapping part of the store is unchanged (writeback_frame), the caller reads "
-    "the callee's result at pi (writeback_observed); k borrowed parameters give k extra outputs after the results in parameter "
+    "the callee's result at pi (writeback_observed); assignment to a place gives store[pi := v] (assign_lens); for EVERY well-typed path (fields, tuple indices, subscripts, any nesting) and conforming store the wire-level SSA op list itself - tuple unpack/pack plumbing of DFContainer, itousize, borrow/return, Call with all wiring - computes the lens update (wire_writeback: DFContainer get/set characterised for all types by mutual induction, forward simulation of the cascade); k borrowed parameters give k extra outputs after the results in parameter "
     "order and _update_inout_ports consumes exactly those (inout_ports_count_order). Tied to /repo every run: for generated typed "
     "paths the REAL compiler's op list and wiring is extracted from the Hugr, compared with the model's wire-level emission, and "
     "interpreted (Python and Lean) against the lens and against the place-level sequence; FuncDefn signatures and Call wiring are "
     "read from lowered probes.",
-    "level_note": "Partial: runtime values are unmodelled; the wire-level refinement (DFContainer pack/unpack plumbing) is checked per "
-    "probe, not proved; only linear element/field types are modelled. Trusted: Lean kernel + propext/Classical.choice/Quot.sound, "
+    "level_note": "Partial: runtime values are unmodelled; the wire-level theorem is about the model's emission (tied to the real compiler by "
+    "per-probe comparison) and well-typed stores; the assignment variant is checked per probe only; only linear element/field types are modelled. Trusted: Lean kernel + propext/Classical.choice/Quot.sound, "
     "the Hugr op-list extractor, assumed op semantics. Probes are sampling (all step-kind sequences up to the tier's depth).",
     "technique": "Lean 4 proof (lens laws + cascade induction) + per-run extraction of the real lowering (T-obj) with a store-semantics oracle",
     "design_ref": "DESIGN.md §5 C07",
@@ -82,6 +85,8 @@ class Probe:
 def ty_src(t):
     if t[0] == "q":
         return "qubit"
+    if t[0] == "ai":  # an affine (non-copyable, droppable) leaf: target of assignment probes
+        return "array[int, 2]"
     if t[0] == "arr":
         return f"array[{ty_src(t[1])}, {t[2]}]"
     if t[2] is not None:
@@ -90,7 +95,7 @@ def ty_src(t):
 
 
 def ty_sexp(t):
-    if t[0] == "q":
+    if t[0] in ("q", "ai"):
         return "q"
     if t[0] == "arr":
         return f"(arr {ty_sexp(t[1])})"
@@ -119,6 +124,8 @@ def gen_probe(rng, kinds, arg_kind="q"):
 
     if arg_kind == "q":
         t = ("q",)
+    elif arg_kind == "ai":
+        t = ("ai",)
     elif arg_kind == "struct":
         t = mk_struct([("q",), ("q",)])
     elif arg_kind == "arr":
@@ -128,18 +135,22 @@ def gen_probe(rng, kinds, arg_kind="q"):
     arg_ty = t
     steps_rev = []
     level = sum(1 for k in kinds if k == "sub")
+    innermost = True
     for kind in reversed(kinds):
         if kind == "sub":
             t = ("arr", t, 3)
             steps_rev.append(("sub", level))
             level -= 1
+            innermost = False
         else:
             arity = rng.choice([2, 2, 3])
             pos = rng.randrange(arity)
-            elems = [filler() for _ in range(arity)]
+            # the struct that holds an assignment target keeps qubit siblings (so it stays linear)
+            elems = [(("q",) if (innermost and arg_kind == "ai") else filler()) for _ in range(arity)]
             elems[pos] = t
             t = mk_struct(elems) if kind == "field" else ("tup", elems, None)
             steps_rev.append(("proj", pos))
+        innermost = False
     return Probe(t, list(reversed(steps_rev)), arg_ty, structs)
 
 
@@ -163,6 +174,23 @@ def probe_src(p: Probe):
     return "\n".join(out), expr
 
 
+def assign_src(p: Probe):
+    out = []
+    for name, fields in p.structs:
+        out.append("@guppy.struct\nclass %s:\n%s\n" % (name, "\n".join(f"    f{k}: {ty_src(t)}" for k, t in enumerate(fields))))
+    expr, t = "x", p.root_ty
+    for s in p.steps:
+        if s[0] == "sub":
+            expr += f"[i{s[1]}]"
+            t = t[1]
+        else:
+            expr += (f".f{s[1]}" if t[2] is not None else f"[{s[1]}]")
+            t = t[1][s[1]]
+    params = "".join(f", i{j}: int" for j in range(1, p.m + 1))
+    out.append(f"@guppy\ndef probe(x: {ty_src(p.root_ty)}{params}, v: {ty_src(p.arg_ty)} @owned) -> None:\n    {expr} = v\n")
+    return "\n".join(out), expr
+
+
 def path_sexp(p: Probe, idxs):
     chunks, cur = [], []
     for s in p.steps:
@@ -179,7 +207,7 @@ _leaf = itertools.count(1)
 
 
 def mk_store(t, counter):
-    if t[0] == "q":
+    if t[0] in ("q", "ai"):
         return ("l", next(counter))
     if t[0] == "arr":
         return ("a", [mk_store(t[1], counter) for _ in range(t[2])])
@@ -202,11 +230,11 @@ def val_sexp(v):
     return "(" + v[0] + "".join(" " + val_sexp(x) for x in v[1]) + ")"
 
 
-def oracle_assign(store, p: Probe, idxs):
-    """store[pi := bump(store[pi])], by plain recursion on the path — the property's literal reading"""
+def oracle_assign(store, p: Probe, idxs, new=None):
+    """store[pi := bump(store[pi])] (or store[pi := new]), by plain recursion on the path — the property's literal reading"""
     def go(v, steps):
         if not steps:
-            return bump(v)
+            return bump(v) if new is None else new
         s = steps[0]
         k = s[1] if s[0] == "proj" else idxs[s[1] - 1]
         want = "t" if s[0] == "proj" else "a"
@@ -270,12 +298,16 @@ def py_run(prog, inputs):
                     raise Panic("notBorrowed")
                 cs[i] = vals[2]
                 res = [("a", cs)]
+            elif nm == "drop":
+                if len(vals) != 1 or (vals[0] != "h" and vals[0][0] in ("int", "usize")):
+                    raise Panic("illTyped")
+                res = []
             elif nm == "call":
                 if len(vals) != 1 or (vals[0] != "h" and vals[0][0] in ("int", "usize")):
                     raise Panic("illTyped")
                 res = [bump(vals[0])]
             else:
-                raise Panic("illTyped")
+                raise Panic("unknownOp:" + nm)  # cannot be judged: reported as a broken tie, not as a failing input
             if len(res) != nout:
                 raise Panic("illTyped")
             env.extend(res)
@@ -485,6 +517,7 @@ def tie(ctx):
             lines.append(f"(runw {sexp(prog)} {val_sexp(store)} ({' '.join(map(str, idxs))}))")
         else:
             lines.append(f"(lens {ps} {val_sexp(store)})")
+        lines.append(f"(wt {ty_sexp(p.root_ty)} {ps})")
 
     # ---- signature probes
     sig_cases = []
@@ -525,11 +558,69 @@ def tie(ctx):
         lines.append("(sig (" + " ".join(f"({j} {1 if k == 'borrowed' else 0})" for j, k in enumerate(params)) + ") (" +
                      " ".join(str(100 + r) for r in range(nres)) + "))")
 
+    # ---- assignment probes (`pi = v`, StmtCompiler._assign_place): paths ending in a struct field of affine type
+    a_seqs = [tuple(c["kinds"]) for c in corpus if c.get("kind") == "assign"]
+    field_seqs = [ks + ("field",) for ks in _all_kind_seqs(2 if ctx.quick else 3)]
+    if ctx.quick:
+        rng.shuffle(field_seqs)
+        field_seqs = field_seqs[:8]
+    a_cases = []
+    for ks in a_seqs + field_seqs:
+        p = gen_probe(rng, list(ks), "ai")
+        src, expr = assign_src(p)
+        idxs = [rng.randrange(0, 3) for _ in range(p.m)]
+        store = mk_store(p.root_ty, itertools.count(1))
+        newv = ("l", 900)
+        try:
+            prog, sig, _in, _out = extract_probe(src)
+            err = None
+        except Exception as e:  # noqa: BLE001
+            prog, sig, err = None, None, e
+        a_cases.append((ks, p, src, expr, idxs, store, newv, prog, sig, err))
+        ps = path_sexp(p, idxs)
+        lines.append(f"(emitassign {ty_sexp(p.root_ty)} {ps})")
+        lines.append(f"(runa2 {ps} {val_sexp(store)} {val_sexp(newv)})")
+        lines.append(f"(lens2 {ps} {val_sexp(store)} {val_sexp(newv)})")
+        if prog is not None:
+            lines.append(f"(runw2 {sexp(prog)} {val_sexp(store)} ({' '.join(map(str, idxs))}) {val_sexp(newv)})")
+        else:
+            lines.append(f"(lens2 {ps} {val_sexp(store)} {val_sexp(newv)})")
+
     reps = ctx.driver(DRIVER, lines)
+
+    # ---- evaluate assignment probes
+    base2 = 5 * len(cases) + len(sig_runs)
+    for k, (ks, p, src, expr, idxs, store, newv, prog, sig, err) in enumerate(a_cases):
+        model_emit, model_runa, model_lens, model_runw = reps[base2 + 4 * k: base2 + 4 * k + 4]
+        case = {"kind": "assign", "kinds": list(ks), "expr": expr, "root": ty_src(p.root_ty), "idxs": idxs}
+        ctx.count({"assign": expr, "root": ty_sexp(p.root_ty)}, nontrivial=len(ks) >= 2, kind=f"assign:depth{len(ks)}:subs{p.m}")
+        key = f"input:assign {ty_src(p.root_ty)} :: {expr} = v :: {[(n, [ty_src(t) for t in fs]) for n, fs in p.structs]}"
+        if prog is None:
+            ctx.violation(key, f"assignment {expr} = v with x: {ty_src(p.root_ty)} is not compiled: {type(err).__name__}: {err}",
+                          {"case": case, "source": src, "error": repr(err)})
+            continue
+        want = "ok " + val_sexp(oracle_assign(store, p, idxs, new=newv))
+        real = py_run(prog, [store] + [("int", i) for i in idxs] + [newv])
+        real_s = sexp(prog)
+        if real.startswith("err unknownOp:"):
+            ctx.broke(f"{expr} = v: extracted op list contains an operation without modelled semantics: {real}")
+        elif real != want:
+            ctx.violation(key, f"{expr} = v with x: {ty_src(p.root_ty)}, indices {idxs}: the lowered op list turns the store "
+                          f"{val_sexp(store)} into {real}; reference semantics (store[pi := v]) gives {want}",
+                          {"case": case, "source": src, "extracted": real_s, "real": real, "oracle": want})
+        if real_s != model_emit:
+            ctx.broke(f"T-obj: lowering of `{expr} = v` [x: {ty_src(p.root_ty)}] differs from the model's emission "
+                      f"(real={real_s} model={model_emit})")
+        if model_runw != real:
+            ctx.broke(f"Lean vs Python interpretation of the extracted op list for `{expr} = v`: {model_runw} vs {real}")
+        if model_runa != want or model_lens != want:
+            ctx.broke(f"Lean place-level sequence / lens on `{expr} = v`: runa={model_runa} lens={model_lens} expected {want}")
 
     # ---- evaluate place probes
     for k, (ks, a, p, src, expr, idxs, store, prog, sig, in_tys, out_tys, err) in enumerate(cases):
-        model_emit, model_runa, model_lens, model_runw = reps[4 * k: 4 * k + 4]
+        model_emit, model_runa, model_lens, model_runw, model_wt = reps[5 * k: 5 * k + 5]
+        if model_wt != "ok":
+            ctx.broke(f"probe cal({expr}) [x: {ty_src(p.root_ty)}] does not satisfy the hypothesis WT of theorem wire_writeback: {model_wt}")
         case = {"kind": "place", "kinds": list(ks), "arg": a, "expr": expr, "root": ty_src(p.root_ty), "idxs": idxs}
         nontriv = len(ks) >= 2 or "sub" in ks
         ctx.count({"expr": expr, "root": ty_sexp(p.root_ty), "arg": a}, nontrivial=nontriv,
@@ -542,7 +633,9 @@ def tie(ctx):
         want = "ok " + val_sexp(oracle_assign(store, p, idxs))
         real = py_run(prog, [store] + [("int", i) for i in idxs])
         real_s = sexp(prog)
-        if real != want:
+        if real.startswith("err unknownOp:"):
+            ctx.broke(f"cal({expr}): extracted op list contains an operation without modelled semantics: {real}")
+        elif real != want:
             ctx.violation(key, f"cal({expr}) with x: {ty_src(p.root_ty)}, indices {idxs}: the lowered op list turns the store "
                           f"{val_sexp(store)} into {real}; reference semantics (store[pi := callee(store[pi])]) gives {want}",
                           {"case": case, "source": src, "extracted": real_s, "real": real, "oracle": want})
@@ -557,7 +650,7 @@ def tie(ctx):
             ctx.broke(f"Lean place-level sequence / lens on cal({expr}) store {val_sexp(store)}: runa={model_runa} lens={model_lens} expected {want}")
 
     # ---- evaluate signature probes
-    base = 4 * len(cases)
+    base = 5 * len(cases)
     for k, (params, nres, perm, src, got, err) in enumerate(sig_runs):
         model = reps[base + k]
         nb = sum(1 for x in params if x == "borrowed")
@@ -636,7 +729,7 @@ def search(ctx, why):
             continue
         want = "ok " + val_sexp(oracle_assign(store, p, idxs))
         real = py_run(prog, [store] + [("int", i) for i in idxs])
-        if real != want:
+        if real != want and not real.startswith("err unknownOp:"):
             key = f"input:place {ty_src(p.root_ty)} :: cal({expr}) :: {[(n, [ty_src(t) for t in fs]) for n, fs in p.structs]}"
             ctx.violation(key, f"cal({expr}) with x: {ty_src(p.root_ty)}, indices {idxs}: lowered op list gives {real}; reference gives {want}",
                           {"case": {"kind": "place", "kinds": ks, "arg": a, "expr": expr}, "source": src, "extracted": sexp(prog),
